@@ -51,11 +51,18 @@ func (c *ExecuteCtx) SetFieldResult(name string, value any) {
 	c.FieldCaches[name] = value
 }
 
+// chunkCacheKey is the key of a field's values for the chunk that starts at
+// key. The length of the name comes first: a name can hold any character
+// (`n-a`), a separator alone would let (n, a-b) and (n-a, b) collide
+func chunkCacheKey(name string, key []byte) string {
+	return fmt.Sprintf("%d:%s-%s", len(name), name, string(key))
+}
+
 func (c *ExecuteCtx) GetChunkFieldResult(name string, key []byte) ([]any, bool) {
 	if !c.EnableCache {
 		return nil, false
 	}
-	ckey := fmt.Sprintf("%s-%s", name, string(key))
+	ckey := chunkCacheKey(name, key)
 	if chunk, have := c.FieldChunkKeyCaches[ckey]; have {
 		return chunk, true
 	}
@@ -81,7 +88,7 @@ func (c *ExecuteCtx) SetChunkFieldResult(name string, key []byte, chunk []any) {
 	if !c.EnableCache {
 		return
 	}
-	ckey := fmt.Sprintf("%s-%s", name, string(key))
+	ckey := chunkCacheKey(name, key)
 	if _, have := c.FieldChunkKeyCaches[ckey]; have {
 		return
 	}
